@@ -105,6 +105,8 @@ type Link struct {
 	cliDoneAt int64
 	// writeBroken: client writes fail while reads still block (half-open connection)
 	writeBroken int32
+	// CloseDelay: the client's Close takes that long (a transport whose close handshake waits for a peer that is gone)
+	CloseDelay time.Duration
 
 	// write stall (a peer that has stopped reading: back-pressure): client writes block while stalled
 	stallMu sync.Mutex
@@ -260,6 +262,9 @@ func (c *clientEnd) Write(b []byte) error {
 }
 
 func (c *clientEnd) Close() error {
+	if d := c.l.CloseDelay; d > 0 {
+		time.Sleep(d)
+	}
 	atomic.StoreInt32(&c.closed, 1)
 	c.l.conce.Do(func() {
 		atomic.StoreInt64(&c.l.cliDoneAt, time.Now().UnixNano())
